@@ -4,7 +4,7 @@
     structural (a Fixpoint over the characters of the token). *)
 From Coq Require Import List NArith ZArith.
 From Cicada Require Import Base.Chars Base.Tag Model.Expand Model.ExpandRef
-  Proofs.ExpandBasics Proofs.EnvProofs Proofs.ExpandOnceProofs Proofs.EnvGate Proofs.SubstProofs Proofs.ExpandInert Model.GateVariant Proofs.GateVariantProofs.
+  Proofs.ExpandBasics Proofs.EnvProofs Proofs.ExpandOnceProofs Proofs.EnvGate Proofs.SubstProofs Proofs.ExpandInert.
 From Cicada Require Model.Tokenizer.
 Import ListNotations.
 Local Open Scope N_scope.
@@ -19,15 +19,15 @@ Definition C10_full : Prop :=
   forall W ps tg, wf_pieces ps = true -> tg <> TSq -> tg <> TBq ->
   expand_env W [(tg, render_pieces ps)] = [(tg, den_pieces W ps)].
 
-(** Still false, for ONE reason: in front of the scan the gate env_in_token exempts tokens shaped like
-    ..='..$NAME..' whatever their quoting.  For the untagged token x='$A' that is right (the user
-    single-quoted $A), for the DOUBLE-quoted token it is not: echo "x='$A'" prints x='$A'. *)
+(** As stated for ALL tags it stays false, now only because of DELIBERATE exemptions of the gate: the untagged token
+    x='$A' (an alias definition: the user single-quoted $A, so the property itself says "never expanded") and the
+    command-substitution shapes.  No finding is recorded for C10 any more. *)
 Theorem C10_refuted : ~ C10_full.
 Proof. exact full_refuted. Qed.
 Theorem C10_refuted_exemption :
   wf_pieces ps_exempt = true /\ gate_ok ps_exempt = false /\
   render_pieces ps_exempt = [120; 61; 39; 36; 65; 39] /\ den_pieces W_v ps_exempt = [120; 61; 39; 118; 39] /\
-  expand_env W_v [(TDq, render_pieces ps_exempt)] = [(TDq, render_pieces ps_exempt)].
+  expand_env W_v [(TNone, render_pieces ps_exempt)] = [(TNone, render_pieces ps_exempt)].
 Proof. exact exempt_witness. Qed.
 
 (** Partial statement, at full strength in everything else: outside the exemption shapes (decidable on
@@ -86,17 +86,16 @@ Example C10_untagged_value_is_syntax :
   = Ok [(TNone, [101; 99; 104; 111]); (TNone, [124])].
 Proof. exact untagged_value_is_syntax. Qed.
 
-(** About the PROPOSED repair notes/C10-fix-2.patch (Model/GateVariant.v): the gate is told when the token was
-    double-quoted and skips the alias-definition exemption there.  Then a double-quoted word only has to avoid an
-    open paren and (an equals sign together with a BACKQUOTE); single quotes are harmless; other tags unchanged. *)
-Theorem C10_variant_dq_gate : forall W ps, wf_pieces ps = true -> gate_ok_dq ps = true ->
-  expand_env_tok_v W (TDq, render_pieces ps) = (TDq, den_pieces W ps).
-Proof. exact expand_env_tok_v_dq. Qed.
-Theorem C10_variant_other_tags : forall W t, fst t <> TDq -> expand_env_tok_v W t = expand_env_tok W t.
-Proof. exact expand_env_tok_v_other. Qed.
-Example C10_variant_exemption_gone :
-  expand_env_tok_v (world_of [([65], [118])] []) (TDq, [120; 61; 39; 36; 65; 39]) = (TDq, [120; 61; 39; 118; 39]).
-Proof. exact gate_variant_dq_expands. Qed.
+(** Double-quoted words (since 8dc686a the gate takes the tag): a single quote is an ordinary character there, so the
+    only words left out are those whose literal text has an open paren, or an equals sign together with a BACKQUOTE
+    (the command-substitution shapes, whose inner line is expanded when it runs). *)
+Theorem C10_double_quoted : forall W ps, wf_pieces ps = true -> gate_ok_dq ps = true ->
+  expand_env W [(TDq, render_pieces ps)] = [(TDq, den_pieces W ps)].
+Proof. intros W ps Hw Hg. apply partial_dq; assumption. Qed.
+(** regression for 8dc686a: echo "x='$A'" with A=v *)
+Example C10_exemption_dq_gone :
+  expand_env_tok (world_of [([65], [118])] []) (TDq, [120; 61; 39; 36; 65; 39]) = (TDq, [120; 61; 39; 118; 39]).
+Proof. exact gate_dq_expands. Qed.
 
 Check C10_scan : forall W ps, wf_pieces ps = true -> expand_env_once W (render_pieces ps) = den_pieces W ps.
 Check C10_refuted : ~ C10_full.
@@ -126,4 +125,4 @@ Print Assumptions C10_line.
 Print Assumptions C10_single_quoted.
 Print Assumptions C10_single_quoted_in_line.
 Print Assumptions C10_do_expansion_inert.
-Print Assumptions C10_variant_dq_gate.
+Print Assumptions C10_double_quoted.
